@@ -295,6 +295,10 @@ func (c *Collection) PullID(ctx context.Context, id string, opts ...ReadOption) 
 	send := make(chan *ValueChange)
 	go func() {
 		defer close(send)
+		// the underlying Pull must not outlive this subscription: when we return because the item was removed (ctx is
+		// still live) the Pull would otherwise stay subscribed with nobody receiving, blocking writers
+		ctx, cancel := context.WithCancel(ctx)
+		defer cancel()
 		for change := range c.Pull(ctx, opts...) {
 			if change.Id != id {
 				continue
